@@ -96,7 +96,6 @@ Prods(nt) ==
                               <<"RichCmt">>} ELSE {})
          \cup (IF HasEmptyStat THEN {<<";">>} ELSE {})
          \cup (IF HasGoto THEN {<<"goto", "l1", "::", "l1", "::">>, <<"::", "l2", "::">>} ELSE {})
-         \cup (IF V51 \/ JIT THEN {} ELSE {})
          \* statement separator after a statement (all versions): `stat ;`
          \cup {<<"call", ";">>}
          \* `goto` is an ordinary name where it is not reserved
